@@ -52,6 +52,11 @@ func corpus() []History {
 		{Shards: 0, Steps: []cfgsm.Step{
 			st(true, one, map[string]B{"b0": {Eps: []int{1}}, "bd": {Eps: []int{2}}}, "bd"),
 			st(false, one, oneB, "")}},
+		// the default service resolves to another backend, both already existing and unchanged
+		// (service ports reordered): taken for a no-op until d8ef0ec, default_backend stayed the old one
+		{Shards: 3, Steps: []cfgsm.Step{
+			st(true, map[string]H{"h0": {Paths: []P{{Path: "/", Backend: "b0"}, {Path: "/a", Backend: "b1"}}}}, map[string]B{"b0": {Eps: []int{1}}, "b1": {Eps: []int{2}}}, "b0"),
+			st(false, map[string]H{"h0": {Paths: []P{{Path: "/", Backend: "b0"}, {Path: "/a", Backend: "b1"}}}}, map[string]B{"b0": {Eps: []int{1}}, "b1": {Eps: []int{2}}}, "b1")}},
 		// ssl-redirect of the root path changes (backend side) while the host, which has a
 		// root redirect, is re-created identical: _front_redir_root_ssl was not rewritten
 		{Shards: 0, Steps: []cfgsm.Step{
